@@ -12,7 +12,7 @@ from __future__ import annotations
 
 import ast
 
-from .model import ClassInfo, Program, call_name, is_self_attr, norm
+from .model import ClassInfo, Program, call_name, is_self_attr, norm, strip_copy
 from .poly import Rat, eval_expr
 from .report import AnalysisError
 
@@ -144,6 +144,7 @@ class MethodExpander:
         raise AnalysisError(f"{f.qualname}: no return value")
 
     def ev(self, f, e, env) -> LinComb:
+        e = strip_copy(e)
         if isinstance(e, ast.Constant) and isinstance(e.value, (int, float)) and not isinstance(e.value, bool):
             return LinComb.scalar(eval_expr(e, {}))
         if isinstance(e, ast.Name):
